@@ -6,7 +6,7 @@ components by existence, escapes).  GlobGen enumerates every tree over five
 top-level names (plain, two characters, dot file, a name with a pattern
 character, a name ending in a backslash) with six shapes each (three for the last) (absent, file, empty directory, directory with
 a file, directory with a dot file, dangling symlink) and every pattern of one
-or two components from a pool of fourteen components, with and without trailing
+or two components from a pool of fifteen components, with and without trailing
 slash, and computes the expected set.  The driver builds each tree in a
 scratch directory and runs the real pattern.Glob; GlobCheck validates set
 equality (modulo the optional . and .. members), existence of every result,
@@ -18,8 +18,8 @@ LEVEL = "model_checking"
 
 
 def run(R):
-    R.rule = ("cases = (tree, pattern): 6^4 x 3 = 3888 trees x 692 patterns (14 components: literal, *, ?, a*, .*, [ab]*, escaped, a?, "
-              "escaped star, *b, ??, escaped backslash, escaped letter + *, escaped period + *; one or two components; with / without trailing slash; absolute and repeated-slash forms of all one-component and 36 two-component patterns); exhaustive; distinct_nontrivial = "
+    R.rule = ("cases = (tree, pattern): 6^4 x 3 = 3888 trees x 700 patterns (15 components: literal, *, ?, a*, .*, [ab]*, escaped, a?, "
+              "escaped star, *b, ??, escaped backslash, escaped letter + *, escaped period + *, trailing backslash; one or two components; with / without trailing slash; absolute and repeated-slash forms of all one-component and 36 two-component patterns); exhaustive; distinct_nontrivial = "
               "distinct (tree, pattern) pairs with a non-empty expected result")
     R.assumptions = ["patterns are evaluated in a scratch directory; absolute patterns are prefixed with its path (ROOT in the spec)",
                      "a result keeps the separators of the pattern as written (a//b gives a//b); leading repeated slashes are not generated",
@@ -57,7 +57,7 @@ def run(R):
                   observed=["/".join("".join(n) for n in r) for r in p["obs"]["res"]],
                   flags={k2: p["obs"][k2] for k2 in ("err", "sorted", "nodup", "lstat", "slashok", "panic", "dots")})
         R.violation("Glob differs from Glob.tla: %s" % json.dumps(ex, ensure_ascii=False)[:1500],
-                    dict(kind="glob", case=dict(tree=c["tree"], entries=c["entries"], pats=[{k2: p[k2] for k2 in ("comps", "slash", "abs", "rep", "exp", "expstr")}])),
+                    dict(kind="glob", case=dict(tree=c["tree"], entries=c["entries"], pats=[{k2: p[k2] for k2 in ("comps", "slash", "abs", "rep", "exp", "expstr", "exp2", "expstr2")}])),
                     coords=dict(pattern=p["obs"]["text"]))
     R.exhaustive = R.tier != "quick"
     R.evaluations = sum(len(c["pats"]) for c in obs)
